@@ -162,7 +162,10 @@ func ruleArrayReset(p *Prog, r *Report, pkg, typ, field string, reset fnRef) {
 	for k := int64(0); k < at.Len(); k++ {
 		key := fmt.Sprintf("%s.%s[%d]/%s", typ, field, k, p.FnName(f))
 		r.Instance(rule, key)
-		resets := func(in ssa.Instruction) bool {
+		// functions that reset element k on every path to every return (a reset moved into a helper), least fixpoint
+		always := map[*ssa.Function]bool{}
+		var resets func(in ssa.Instruction) bool
+		resets = func(in ssa.Instruction) bool {
 			if idx, ok := elemStore(in); ok {
 				c, isC := intConst(idx)
 				return isC && c == k
@@ -173,9 +176,34 @@ func ruleArrayReset(p *Prog, r *Report, pkg, typ, field string, reset fnRef) {
 						c, isC := intConst(call.Common().Args[j])
 						return isC && c == k
 					}
+					return always[sc]
 				}
 			}
 			return false
+		}
+		for changed := true; changed; {
+			changed = false
+			for _, g := range p.ModFns() {
+				if always[g] || g == f || fnPkg(g) != fnPkg(f) || len(g.Blocks) == 0 {
+					continue
+				}
+				all, any := true, false
+				for _, b := range g.Blocks {
+					ret, isRet := b.Instrs[len(b.Instrs)-1].(*ssa.Return)
+					if !isRet {
+						continue
+					}
+					any = true
+					if good, _ := mustPrecede(p, g, ret, resets, nil); !good {
+						all = false
+						break
+					}
+				}
+				if any && all {
+					always[g] = true
+					changed = true
+				}
+			}
 		}
 		ok := true
 		var where ssa.Instruction
